@@ -95,6 +95,16 @@ def gen_case(seed, tier='quick', index=1):
     with_sets = rng.random() < 0.3
     threads = rng.random() < 0.2
     inputs = [a for a in cells if world['level'][a] == 0]
+    eq_family = eq_target = None
+    if with_sets and inputs and rng.random() < 0.4:
+        eq_family = rng.choice([['', 0, False, None, 0.0, '0', -0.0],
+                                [1, True, 1.0, '1', 'TRUE', 'true'],
+                                ['abc', 'ABC', 'Abc', ' abc'],
+                                [2, 2.0, '2', '2.0', ' 2'],
+                                ['n/a', 'N/A', 'N/a']])
+        used_ = [d for a in formulas for d in world['deps'].get(a, ())
+                 if d in inputs]
+        eq_target = rng.choice(used_ or inputs)
     # every formula cell at least twice on copy 0 (positions random)
     plan = []
     for a in formulas:
@@ -131,11 +141,16 @@ def gen_case(seed, tier='quick', index=1):
         if with_sets and inputs and rng.random() < 0.2:
             # an input changed behind the evaluators' backs: through the
             # model itself or through one particular evaluator
+            tgt_, val_ = rng.choice(inputs), c04.new_value(rng)
+            if eq_family is not None:
+                # one input runs through values that compare equal (to
+                # Python or to Excel) without being the same thing
+                tgt_, val_ = eq_target, rng.choice(eq_family)
             ops.append({'op': 'set', 'copy': c,
                         'via': rng.choice(['model', 'evaluator']),
                         'ev': rng.randrange(len(evs[c])),
-                        'target': rng.choice(inputs),
-                        'value': worlds.enc(c04.new_value(rng))})
+                        'target': tgt_,
+                        'value': worlds.enc(val_)})
         if rng.random() < 0.02:
             ops.append({'op': 'checkpoint', 'copy': c,
                         'path': '/simfs/ck.json'})
